@@ -7,8 +7,12 @@
 EXTENDS Engine, Json
 
 CONSTANTS N,         \* number of top-level steps
-          DOUBLE     \* TRUE: the steps are loops with two updates per iteration
-P(t) == C("p", <<t>>)
+          DOUBLE,    \* TRUE: the steps are loops with two updates per iteration
+          ARITY0     \* TRUE: the same histories over q/0 - every clause head is the atom q, so that all the facts are duplicates of each
+                     \* other and only the clause identity tells them apart (F26)
+P(t) == IF ARITY0 THEN A("q") ELSE C("p", <<t>>)
+PKey == IF ARITY0 THEN <<"q", 0>> ELSE <<"p", 1>>
+PInd == IF ARITY0 THEN C("/", <<A("q"), I(0)>>) ELSE C("/", <<A("p"), I(1)>>)
 X == V(1)
 L == V(2)
 Conj2(a, b) == C(",", <<a, b>>)
@@ -19,7 +23,7 @@ Upd == { C("assertz", <<P(I(7))>>), C("asserta", <<P(I(7))>>), C("retract", <<P(
 \* two updates in one iteration (e.g. remove the last clause, then append a new one)
 Upd2 == { Conj2(u1, u2) : u1 \in Upd \ {A("true")}, u2 \in Upd \ {A("true")} }
 Plain == { C("assertz", <<P(I(8))>>), C("asserta", <<P(I(0))>>), C("assertz", <<P(V(3))>>), C("retract", <<P(I(2))>>), C("retract", <<P(V(3))>>),
-           C("retract", <<C(":-", <<P(V(3)), V(4)>>)>>), C("retractall", <<P(V(3))>>), C("retractall", <<P(I(2))>>), C("abolish", <<C("/", <<A("p"), I(1)>>)>>),
+           C("retract", <<C(":-", <<P(V(3)), V(4)>>)>>), C("retractall", <<P(V(3))>>), C("retractall", <<P(I(2))>>), C("abolish", <<PInd>>),
            C("retract", <<C(":-", <<P(I(4)), V(4)>>)>>), C("retract", <<P(I(4))>>), C("retractall", <<P(I(4))>>), C("retractall", <<P(C("f", <<I(1)>>))>>),
            C("assertz", <<C(":-", <<P(I(5)), C("w", <<I(5)>>)>>)>>), C("asserta", <<C(":-", <<P(V(3)), C("w", <<V(3)>>)>>)>>),
            C("retract", <<C(":-", <<P(I(0)), V(4)>>)>>), C("retractall", <<P(I(0))>>), C("asserta", <<C(":-", <<P(I(6)), C(";", <<C("w", <<I(6)>>), C("w", <<I(7)>>)>>)>>)>>) }
@@ -40,7 +44,7 @@ RECURSIVE Interleave(_)
 Interleave(steps) == IF steps = <<>> THEN <<>> ELSE <<Conj2(steps[1], A("fail")), Observe>> \o Interleave(Tail(steps))
 Query(steps) == Disj(Interleave(steps) \o << C("catch", <<C("findall", <<X, P(X), L>>), V(6), C("=", <<L, A("gone")>>)>> ) >>)
 
-Db0 == << [key |-> <<"p", 1>>, dyn |-> TRUE, cls |-> << [id |-> 10, head |-> P(I(0)), body |-> C(";", <<C("w", <<I(0)>>), C("w", <<I(9)>>)>>), nv |-> 0],   \* p(0) :- w(0) ; w(9).  (ONE clause)
+Db0 == << [key |-> PKey, dyn |-> TRUE, cls |-> << [id |-> 10, head |-> P(I(0)), body |-> C(";", <<C("w", <<I(0)>>), C("w", <<I(9)>>)>>), nv |-> 0],   \* p(0) :- w(0) ; w(9).  (ONE clause)
                                                         [id |-> 1, head |-> P(I(1)), body |-> TrueA, nv |-> 0],
                                                         [id |-> 2, head |-> P(I(2)), body |-> TrueA, nv |-> 0],
                                                         [id |-> 3, head |-> P(C("f", <<V(1)>>)), body |-> TrueA, nv |-> 1],
@@ -76,7 +80,7 @@ ClauseIds(db) == UNION { { db[i].cls[j].id : j \in 1..Len(db[i].cls) } : i \in 1
 IdsUnique == \A i \in 1..Len(st.db) : \A j, k \in 1..Len(st.db[i].cls) : j # k => st.db[i].cls[j].id # st.db[i].cls[k].id
 \* a removed clause never comes back; surviving clauses keep their relative order; asserta/assertz insert at the ends
 Order(cls) == [j \in 1..Len(cls) |-> cls[j].id]
-PCls(s) == IF HasPred(s.db, <<"p", 1>>) THEN Order(Pred(s.db, <<"p", 1>>).cls) ELSE <<>>
+PCls(s) == IF HasPred(s.db, PKey) THEN Order(Pred(s.db, PKey).cls) ELSE <<>>
 RECURSIVE IsSubseq(_,_)
 IsSubseq(a, b) == IF a = <<>> THEN TRUE ELSE IF b = <<>> THEN FALSE
                   ELSE IF a[1] = b[1] THEN IsSubseq(Tail(a), Tail(b)) ELSE IsSubseq(a, Tail(b))     \* greedy is exact: ids are unique
